@@ -13,8 +13,23 @@ func (h *vHash) Write(p []byte) (int, error) {
 	return len(p), nil
 }
 func (h *vHash) Sum(b []byte) []byte {
-	return append(append([]byte{}, b...), vDigest(h.buf, 0), vDigest(h.buf, 1))
+	d0, d1 := vDigest(h.buf, 0), vDigest(h.buf, 1)
+	if vIsModel() {
+		// no collision between any two inputs hashed on this path (whatever the code chooses to hash)
+		cur := append([]byte{}, h.buf...)
+		for _, prev := range vHashedC13 {
+			if len(prev) != len(cur) {
+				vAssume(!vAnd(vDigest(prev, 0) == d0, vDigest(prev, 1) == d1))
+				continue
+			}
+			vAssume(vImplies(!vSame(prev, cur), !vAnd(vDigest(prev, 0) == d0, vDigest(prev, 1) == d1)))
+		}
+		vHashedC13 = append(vHashedC13, cur)
+	}
+	return append(append([]byte{}, b...), d0, d1)
 }
+
+var vHashedC13 [][]byte
 func (h *vHash) Reset()         { h.buf = nil }
 func (h *vHash) Size() int      { return 2 }
 func (h *vHash) BlockSize() int { return 1 }
@@ -85,7 +100,7 @@ func vWriteEntry(dir string, h *vHash, rsum, dsum, body []byte) (string, []byte)
 
 //verif:harness prop=C13 quick=8 thorough=8 merge=none
 //verif:bounds model hash with 2-byte digests (header = 6 bytes; the code is parametric in Size()); body of 0..3 (quick) / 0..6 (thorough) symbolic bytes; one fault per shard: none | flip any file byte by any non-zero mask | truncate to any shorter length | append 1..2 symbolic bytes | open with other root/data digests | another entry's content under this name | crash after placeholder header + any body prefix | crash after full body + any prefix of the final header
-//verif:assume in-memory file system (Read returns all requested bytes or EOF), flate = self-delimiting framing that is buffered until Close (not real DEFLATE), digest = uninterpreted function with no collision between the inputs compared; root digest of a real input is not all-zero
+//verif:assume in-memory file system (Read returns all requested bytes or EOF), flate = self-delimiting framing that is buffered until Close (not real DEFLATE), digest = uninterpreted function with no collision between any two inputs hashed on a path; root digest of a real input is not all-zero
 func VH_C13_cache_faults() {
 	fault := vShard(8)
 	dir := vTempDir()
